@@ -54,6 +54,11 @@ def leaf_fields(struct, base=0, prefix=""):
                 out.append((f"{prefix}{name}[{k}]", base + desc.offset * 8 + k * w, w, et in SIGNED))
         elif typ in SIGNED + UNSIGNED:
             out.append((prefix + name, base + desc.offset * 8, ctypes.sizeof(typ) * 8, typ in SIGNED))
+        elif isinstance(getattr(typ, "_type_", None), str) and typ._type_ in "bBhHiIlLqQ" and ctypes.sizeof(typ) > 1:
+            # a byte-swapped (non-native-endian) integer: not expressible as one little-endian bit
+            # range.  Recorded with the marker "swapped"; emitted to Coq as an ill-formed field so
+            # that every layout obligation about this struct fails and names it.
+            out.append((prefix + name, base + desc.offset * 8, ctypes.sizeof(typ) * 8, typ._type_.islower(), "swapped"))
         else:
             raise GenError(f"field type {typ} in {struct.__name__}.{name}")
     return out
@@ -282,6 +287,8 @@ def tables(repo):
 
 
 def coq_field(lf):
+    if len(lf) > 4 and lf[4] == "swapped":
+        return f"mkF {z(lf[1])} {z(-lf[2])} {b(lf[3])}"
     return f"mkF {z(lf[1])} {z(lf[2])} {b(lf[3])}"
 
 
